@@ -182,7 +182,7 @@ pub fn gen_config(rng: &mut Rng, o: &CfgOpts) -> Config {
         let mut clauses = vec![];
         let mut preds: Vec<u32> = vec![];
         let mut left = n_pat;
-        let generic = matches!(m, M::GenU8 | M::GenU16 | M::GmU8 | M::GmU16 | M::GpU8 | M::GpU16 | M::GiU8 | M::GiU16);
+        let generic = matches!(m, M::GenU8 | M::GenU16 | M::GmU8 | M::GmU16 | M::GpU8 | M::GpU16 | M::GiU8 | M::GiU16 | M::GnU8 | M::GnU16);
         while left > 0 {
             if generic {
                 // generic instantiations are built through a reduced builder path: one segment
